@@ -168,9 +168,21 @@ def rebuildUprp (cfg : RichCfg) (secs : List RSection) (order : Option (List Nat
         | .placed s => some { c with idx := some s }
         | .skipped => none)
 
-/-- `id_by_cuwp`: the LAST slot holding an equal unit-property set -/
+/-- the slot stored at index `i` (`cuwp_by_id.get(i)`, later entries win) -/
+def cuwpAt (ctx : EncCtx) (i : Nat) : Option RCuwp := ctx.cuwps.reverse.find? (fun t => t.idx == some i)
+
+/-- a set stored at the index it carries -/
+def cuwpOwn (ctx : EncCtx) (c : RCuwp) : Option Nat :=
+  match c.idx with
+  | none => none
+  | some i => match cuwpAt ctx i with
+    | some t => if t.key == c.key then some i else none
+    | none => none
+
+/-- `RichCuwpLookup.get_id_by_cuwp`: a set stored at the index it carries keeps that index; otherwise
+`id_by_cuwp`, the LAST slot holding an equal unit-property set -/
 def cuwpId (ctx : EncCtx) (c : RCuwp) : Option Nat :=
-  (ctx.cuwps.reverse.find? fun t => t.key == c.key).bind (·.idx)
+  (cuwpOwn ctx c).orElse fun _ => (ctx.cuwps.reverse.find? fun t => t.key == c.key).bind (·.idx)
 
 /-- `DecodedUpusRebuilder` -/
 def rebuildUpus (cfg : RichCfg) (cuwps : List RCuwp) : R (List Nat) :=
